@@ -79,6 +79,28 @@ pub struct DocCfg {
     pub numeric_only: bool,
 }
 
+/// a document with every schema key present and non-null (k, n, x, s, b), ints and strings only
+pub fn dense_doc(r: &mut Rng) -> String {
+    let kd = ["a", "b", "c"];
+    format!(
+        "{{\"k\":{},\"n\":{},\"x\":{},\"s\":{},\"b\":{}}}",
+        json_string(kd[r.below(3)]),
+        r.range(-20, 50),
+        if r.chance(50) { format!("{}", r.range(-50, 50)) } else { format!("{}.{}", r.range(-50, 50), r.range(1, 9)) },
+        json_string(*r.pick(&["alpha", "beta", "GET", "err", "x1", "foo bar", "héllo"])),
+        r.pick(&["true", "false"])
+    )
+}
+
+pub fn dense_input(r: &mut Rng, rows: usize) -> Vec<u8> {
+    let mut out = vec![];
+    for _ in 0..rows {
+        out.extend(dense_doc(r).into_bytes());
+        out.push(b'\n');
+    }
+    out
+}
+
 /// one JSON object line drawn from the shared schema
 pub fn json_doc(r: &mut Rng, cfg: &DocCfg) -> String {
     let mut members: Vec<String> = vec![];
@@ -262,6 +284,23 @@ pub fn agg_fn(r: &mut Rng) -> String {
     }
 }
 
+/// the column name an aggregate function gets without `as`
+pub fn default_agg_name(f: &str) -> String {
+    let head = f.split('(').next().unwrap().trim();
+    match head {
+        "count" => "_count".into(),
+        "sum" => "_sum".into(),
+        "min" => "_min".into(),
+        "max" => "_max".into(),
+        "avg" | "average" => "_average".into(),
+        "count_distinct" => "_countDistinct".into(),
+        h => {
+            let digits: String = h.chars().filter(|c| c.is_ascii_digit()).collect();
+            format!("p{}", digits.trim_start_matches('0'))
+        }
+    }
+}
+
 pub fn agg_stage(r: &mut Rng) -> String {
     let nf = 1 + r.below(3);
     let mut names = std::collections::HashSet::new();
@@ -270,7 +309,7 @@ pub fn agg_stage(r: &mut Rng) -> String {
         // avoid duplicate column names inside one stage here (that class has its own check)
         for _ in 0..10 {
             let f = agg_fn(r);
-            let name = if let Some(i) = f.rfind(" as ") { f[i + 4..].to_string() } else { f.split('(').next().unwrap().to_string() };
+            let name = if let Some(i) = f.rfind(" as ") { f[i + 4..].to_string() } else { default_agg_name(&f) };
             if names.insert(name) {
                 fns.push(f);
                 break;
